@@ -441,7 +441,7 @@ func c03Perm(r *core.Run) {
 		core.InstrsOf(fn, func(in ssa.Instruction) {
 			if c, ok := in.(*ssa.Call); ok {
 				switch core.CalleeName(&c.Call) {
-				case "sort.Slice", "sort.SliceStable":
+				case "sort.Slice", "sort.SliceStable", "sort.Stable", "sort.Sort":
 					sortCall = c
 				}
 			}
@@ -672,8 +672,18 @@ func c03GateSwap(r *core.Run, rule string) {
 		var predCalls []*ssa.Call
 		core.InstrsOf(fn, func(in ssa.Instruction) {
 			if c, ok := in.(*ssa.Call); ok {
-				if callee := core.StaticCallee(&c.Call); callee != nil && callee.Parent() == fn {
-					predCalls = append(predCalls, c)
+				if callee := core.StaticCallee(&c.Call); callee != nil {
+					// the type predicate: a closure of this function, or a named function of the package from a
+					// go/types.Type to bool
+					named := false
+					if p.IsProdFunc(callee) && callee.Parent() == nil && len(callee.Params) == 1 && strings.HasSuffix(callee.Params[0].Type().String(), "go/types.Type") {
+						if crt := resultTypes(callee); len(crt) == 1 && crt[0].String() == "bool" {
+							named = true
+						}
+					}
+					if callee.Parent() == fn || named {
+						predCalls = append(predCalls, c)
+					}
 				}
 			}
 		})
